@@ -88,7 +88,7 @@ TESTED_NOT_PROVED = [
     "(oracle on every option / helper / list / history case)",
     "isinstance(order, tuple) in find_unequal_order_edges: ITS graphs whose order is a list are outside the model (the library never builds them)",
 ]
-LEVEL_TEXT = ("Machine-checked proof (Coq, 39 theorems, all closed under the global context) over an executable model of get_rc and RadiusExpand: on every "
+LEVEL_TEXT = ("Machine-checked proof (Coq, 41 theorems, all closed under the global context) over an executable model of get_rc and RadiusExpand: on every "
               "well-formed ITS graph whose standard_order is the order difference the centre contains a bond iff its two orders differ or both atoms "
               "are hydrogens (for ignore_aromaticity ITS graphs: iff the orders differ by at least 1, with a witness that 'differs' alone fails; "
               "stated also on the two sides: for the ITS of a reactant graph G and a product graph H two atoms are joined in the centre iff they are "
@@ -1061,12 +1061,12 @@ def gen_pairs(rng, tier):
     small = P1.gen_exhaustive_small(rng)
     ex1 = [c for c in small if c["kind"] == "exh1"]
     ex2 = [c for c in small if c["kind"] == "exh2"]
-    ex2 = rng.sample(ex2, 600 if tier == "quick" else 6000)
+    ex2 = rng.sample(ex2, 600 if tier == "quick" else 3000)
     for c in ex1 + ex2:
         cases.append(dict(kind="pair-" + c["kind"], G=c["G"], H=c["H"]))
-    for c in P1.gen_random(rng, 300 if tier == "quick" else 4000, maxn=10):
+    for c in P1.gen_random(rng, 300 if tier == "quick" else 2000, maxn=10):
         cases.append(dict(kind="pair-rand", G=c["G"], H=c["H"]))
-    for c in P1.gen_malformed(rng, 150 if tier == "quick" else 1500):
+    for c in P1.gen_malformed(rng, 150 if tier == "quick" else 800):
         cases.append(dict(kind="pair-malformed", G=c["G"], H=c["H"]))
     return cases
 
@@ -1100,11 +1100,11 @@ def gen_options(rng, tier):
         cases.append(dict(kind="x-exh", X=g, keys=list(X.DEFAULT_KEYS)))
         if len(g["nodes"]) == 2:
             cases.append(dict(kind="x-exh-keys", X=g, keys=list(rng.choice(X.KEY_CHOICES[1:]))))
-    for _ in range(500 if tier == "quick" else 4000):
+    for _ in range(500 if tier == "quick" else 2500):
         cases.append(dict(kind="x-rand", X=X.rand_x(rng, rng.randint(2, 9)), keys=list(rng.choice(X.KEY_CHOICES))))
-    for _ in range(40 if tier == "quick" else 400):
+    for _ in range(40 if tier == "quick" else 200):
         cases.append(dict(kind="x-altkeys", X=X.rand_x(rng, rng.randint(2, 8)), keys=list(rng.choice(X.KEY_CHOICES)), alt=True))
-    for _ in range(40 if tier == "quick" else 400):
+    for _ in range(40 if tier == "quick" else 200):
         cases.append(dict(kind="x-rne", X=X.rand_x(rng, rng.randint(2, 8)), keys=[], rne=True))
     return cases
 
@@ -1133,20 +1133,20 @@ def gen_helpers(rng, tier, exh):
     cases = []
     small = [c for c in exh if len(c["I"]["nodes"]) <= 2]
     three = [c for c in exh if len(c["I"]["nodes"]) == 3]
-    for c in small + (rng.sample(three, 250) if q else three):
+    for c in small + rng.sample(three, 250 if q else 2000):
         cases.append(dict(kind="help-exh", I=c["I"], helpers=HELPER_RADII))
     for kind in ("its-rand", "its-incons"):
-        for c in gen_random_its(rng, 250 if q else 3000, kind, maxn=12):
+        for c in gen_random_its(rng, 250 if q else 1500, kind, maxn=12):
             cases.append(dict(kind="help-" + kind[4:], I=c["I"], helpers=HELPER_RADII))
     # n_knn = -1 on graphs in canonical (networkx iteration) order
-    for _ in range(250 if q else 3000):
+    for _ in range(250 if q else 1500):
         g = _rand_its(rng, rng.randint(2, 9), "its-rand") if rng.random() < 0.6 else _cyclic_its(rng, rng.randint(3, 7))
         for e in g["edges"]:
             e[2].pop("is_mtg", None)
         cases.append(dict(kind="lre", I=X.canon(g), lre=True))
     # lists of reaction dicts
-    pool = [c["I"] for c in gen_random_its(rng, 120 if q else 1200, "its-rand", maxn=8)] + [c["I"] for c in rng.sample(three, 60)]
-    for _ in range(60 if q else 600):
+    pool = [c["I"] for c in gen_random_its(rng, 120 if q else 600, "its-rand", maxn=8)] + [c["I"] for c in rng.sample(three, 60)]
+    for _ in range(60 if q else 300):
         gs = [rng.choice(pool) for _ in range(rng.randint(1, 5))]
         if rng.random() < 0.3 and len(gs) >= 2:
             gs[-1] = gs[0]                 # the same graph twice in one list
@@ -1158,14 +1158,14 @@ def gen_ia(rng, tier):
     """ITSGraph(G, H, ignore_aromaticity=True[, balance_its=True]) of synthetic pairs and corpus reactions"""
     q = tier == "quick"
     cases = []
-    for c in P1.gen_random(rng, 300 if q else 3000, maxn=8):
+    for c in P1.gen_random(rng, 300 if q else 1500, maxn=8):
         cases.append(dict(kind="pair-ia", G=c["G"], H=c["H"], ia=True, bal=rng.random() < 0.5))
-    for c in P1.gen_malformed(rng, 100 if q else 1000):
+    for c in P1.gen_malformed(rng, 100 if q else 500):
         cases.append(dict(kind="pair-ia-malformed", G=c["G"], H=c["H"], ia=rng.random() < 0.7, bal=True))
     small = [c for c in P1.gen_exhaustive_small(rng) if c["kind"] == "exh2"]
-    for c in rng.sample(small, 200 if q else 2000):
+    for c in rng.sample(small, 200 if q else 1000):
         cases.append(dict(kind="pair-ia-exh2", G=c["G"], H=c["H"], ia=True, bal=rng.random() < 0.5))
-    for c in P1.gen_random(rng, 150 if q else 1500, maxn=8):
+    for c in P1.gen_random(rng, 150 if q else 800, maxn=8):
         cases.append(dict(kind="help-pair-ia", G=c["G"], H=c["H"], ia=True, bal=False, helpers=HELPER_RADII))
     return cases
 
@@ -1211,16 +1211,16 @@ def gen_big(rng, tier):
     """size classes: ITS graphs beyond 20 / 30 atoms, centres beyond 12 bonds, contexts beyond 30 atoms"""
     q = tier == "quick"
     cases = []
-    for _ in range(40 if q else 400):
+    for _ in range(40 if q else 200):
         cases.append(dict(kind="its-big", I=_big_its(rng, rng.randint(22, 60))))
-    for _ in range(30 if q else 300):
+    for _ in range(30 if q else 150):
         cases.append(dict(kind="help-big", I=_big_its(rng, rng.randint(22, 60)), helpers=HELPER_RADII))
-    for _ in range(20 if q else 200):
+    for _ in range(20 if q else 100):
         cases.append(dict(kind="lre-big", I=X.canon(_big_its(rng, rng.randint(22, 40))), lre=True))
-    for _ in range(30 if q else 300):
+    for _ in range(30 if q else 150):
         cases.append(dict(kind="x-big", X=X.rand_x(rng, rng.randint(22, 45)), keys=list(rng.choice(X.KEY_CHOICES))))
     gs = [_big_its(rng, rng.randint(22, 40)) for _ in range(6)]
-    for _ in range(6 if q else 60):
+    for _ in range(6 if q else 30):
         cases.append(dict(kind="list-big", Is=[rng.choice(gs) for _ in range(rng.randint(2, 4))], k=rng.choice((1, 2, 3))))
     return cases
 
@@ -1231,7 +1231,7 @@ def gen_histories(rng, tier):
     several times in one list"""
     q = tier == "quick"
     cases = []
-    per = {"a": 60, "b": 120, "b2": 90, "b3": 60, "c": 70, "d": 50, "e": 40} if q else {"a": 400, "b": 900, "b2": 700, "b3": 400, "c": 500, "d": 300, "e": 300}
+    per = {"a": 60, "b": 120, "b2": 90, "b3": 60, "c": 70, "d": 50, "e": 40} if q else {"a": 200, "b": 450, "b2": 350, "b3": 200, "c": 250, "d": 150, "e": 150}
     for fl, cnt in per.items():
         for _ in range(cnt):
             g = _rand_its(rng, rng.randint(2, 9), "its-rand") if rng.random() < 0.85 else _cyclic_its(rng, rng.randint(3, 6))
@@ -1266,14 +1266,14 @@ def gen_wrappers(rng, tier):
     q = tier == "quick"
     corpus = [(s_, i, r) for s_, i, r in R.load_corpus() if R.well_formed(r)]
     cases = []
-    for s_, i, r in rng.sample(corpus, 24 if q else 200):
+    for s_, i, r in rng.sample(corpus, 24 if q else 100):
         src = "%s#%d" % (s_, i)
         cases.append(dict(kind="wrap-core", wrap="rsmi_to_its", rsmi=r, core=rng.random() < 0.8, src=src))
         # synkit.Rule.Modify.implict_rule.implicit_rule is not importable on the unchanged tree (ImportError: remove_explicit_H_from_rsmi
         # is not exported by synkit.Chem.Reaction), so that wrapper cannot be exercised; its body is get_rc(ITSGraph(r, p, balance_its=...),
         # disconnected=...), which the option populations cover.  (impl_wrap / oracle_wrap keep the branch for the day it is repaired.)
     pool = [c["I"] for c in gen_random_its(rng, 60, "its-rand", maxn=8)]
-    for _ in range(12 if q else 100):
+    for _ in range(12 if q else 50):
         cases.append(dict(kind="wrap-hier", wrap="hier", Is=[rng.choice(pool) for _ in range(rng.randint(1, 4))], R=rng.choice((1, 2, 3))))
     return cases
 
@@ -1325,9 +1325,9 @@ def gen_degenerate():
 def gen_huge(rng, tier):
     """>= 100 atoms (three-digit node ids / atom maps)"""
     cases = []
-    for _ in range(4 if tier == "quick" else 30):
+    for _ in range(4 if tier == "quick" else 12):
         cases.append(dict(kind="its-huge", I=_big_its(rng, rng.randint(100, 150))))
-    for _ in range(2 if tier == "quick" else 15):
+    for _ in range(2 if tier == "quick" else 6):
         cases.append(dict(kind="help-huge", I=_big_its(rng, rng.randint(100, 150)), helpers=HELPER_RADII))
     g = X.canon(_big_its(rng, 110))
     cases.append(dict(kind="hist-huge", I=g, hist=HS.gen_history(rng, g, "b")))
@@ -1338,9 +1338,9 @@ def gen_cases(tier, rng):
     exh = gen_exhaustive_its()
     cases = list(exh)
     q = tier == "quick"
-    cases += gen_random_its(rng, 450 if q else 8000, "its-rand")
-    cases += gen_random_its(rng, 300 if q else 4000, "its-incons")
-    cases += gen_random_its(rng, 200 if q else 2000, "its-toplevel")
+    cases += gen_random_its(rng, 450 if q else 4000, "its-rand")
+    cases += gen_random_its(rng, 300 if q else 2000, "its-incons")
+    cases += gen_random_its(rng, 200 if q else 1000, "its-toplevel")
     cases += gen_pairs(rng, tier)
     cases += gen_corpus(rng, 40 if q else None, 1 if q else 2)
     cases += gen_options(rng, tier)
